@@ -567,8 +567,6 @@ def option_events(M, seed):
             add(lvl, g, {g: val}, False, f"truncate_error:{val.lower()}:str")
         add(2, g, {g: "maybe"}, False, "truncate_error:invalid:str")
         add(3, g, {g: True}, True, "truncate_error:true:bool")
-    elif M.generic or M.name in ("plaintext",):
-        add(3, "misc", {"truncate_error": True}, False, "truncate_error:unsupported")
     # ---- format specific
     g = "special"
     if M.is_fshp:
@@ -1393,7 +1391,8 @@ def compare(W, nd, s):
     if M.trunc_size is not None:
         t = s.get("trunc")
         want = "refused" if N.get("trunc") else "accepted"
-        if t != "skipped" and t != want:
+        made_failed = "error" in s["lo"] or "error" in s["hi"]
+        if t != "skipped" and t != want and not (made_failed and t.startswith("raises")):
             out.append(("truncate", f"truncate_policy:{t.split(':')[0]}",
                         f"hash() of a {M.trunc_size + 1}-byte password: {t}; truncate_error={N.get('trunc')!r} demands {want}"))
     # ---- update check
